@@ -335,6 +335,39 @@ class Ctx:
     def time_up(self):
         return self.deadline is not None and time.time() > self.deadline
 
+    def guard(self, case, limit=None, what='implementation'):
+        """context manager around one execution of the implementation on `case`: leaves a breadcrumb for the supervising
+        ./check process, which - when the region does not return within `limit` seconds (pure C loops such as a
+        catastrophic regex cannot be interrupted from inside the interpreter) - kills this process, replays the case in a
+        fresh process under the same limit and reports a hang that reproduces as a violation with the case as replay"""
+        return _Guard(self, case, limit or HANG_LIMIT_S, what)
+
+
+HANG_LIMIT_S = float(os.environ.get('VERIF_HANG_LIMIT_S', '60') or 60)
+CRUMB = os.environ.get('VERIF_CRUMB')
+
+
+class _Guard:
+    def __init__(self, ctx, case, limit, what):
+        self.ctx, self.case, self.limit, self.what = ctx, case, limit, what
+
+    def __enter__(self):
+        if CRUMB:
+            tmp = CRUMB + '.tmp'
+            with open(tmp, 'w') as fh:
+                json.dump({'t': time.time(), 'limit': self.limit, 'what': self.what, 'prop': self.ctx.prop,
+                           'case': self.case}, fh, default=repr)
+            os.replace(tmp, CRUMB)
+        return self
+
+    def __exit__(self, *exc):
+        if CRUMB:
+            try:
+                os.unlink(CRUMB)
+            except OSError:
+                pass
+        return False
+
 
 def load_known(prop):
     path = os.path.join(VERIF, 'known_findings.json')
@@ -500,6 +533,93 @@ def run_check(prop, module, tier, seed, replay=None):
         for d in ctx.disagreements[:3]:
             print(f"  disagreement: {json.dumps(d['detail'], default=repr)[:600]}")
     return exit_code
+
+
+# ----------------------------------------------------------------------------------------
+# supervisor: ./check runs the verdict procedure in a child process and watches its breadcrumb
+# ----------------------------------------------------------------------------------------
+
+def supervise(check_path, argv, prop, tier, seed):
+    """run `check <argv>` as a child; if a guarded execution of the implementation (Ctx.guard) does not return within its
+    limit, kill the child and replay that case alone in a fresh process under the same limit: a hang that reproduces is a
+    violation (the implementation does not return on this input; replay = the case), one that does not is an
+    infrastructure time-out (exit 2, no VIOLATION line)"""
+    import signal
+    os.makedirs(os.path.join(OUT, 'replays'), exist_ok=True)
+    crumb = os.path.join(OUT, 'replays', f'.inflight-{prop}-{os.getpid()}.json')
+    env = dict(os.environ, VERIF_CHILD='1', VERIF_CRUMB=crumb)
+    t0 = time.time()
+    child = subprocess.Popen([sys.executable, check_path] + argv, env=env, start_new_session=True)
+    hung = None
+    try:
+        while True:
+            try:
+                return child.wait(timeout=1.0)
+            except subprocess.TimeoutExpired:
+                pass
+            try:
+                c = json.load(open(crumb))
+            except (OSError, ValueError):
+                continue
+            if time.time() - c['t'] > c['limit']:
+                hung = c
+                break
+    finally:
+        if child.poll() is None:
+            try:
+                os.killpg(child.pid, signal.SIGKILL)
+            except OSError:
+                child.kill()
+            child.wait()
+        try:
+            os.unlink(crumb)
+        except OSError:
+            pass
+    # the guarded region overran: does the case alone reproduce it?
+    case_file = write_replay(prop, seed, 'hang-candidate', {'property': prop, 'case': hung['case']})
+    env2 = dict(os.environ, VERIF_CHILD='1')
+    env2.pop('VERIF_CRUMB', None)
+    try:
+        r = subprocess.run([sys.executable, check_path, prop, '--replay', case_file], env=env2, capture_output=True, text=True,
+                           timeout=hung['limit'], start_new_session=True)
+        reproduced = False
+        tail = (r.stdout + r.stderr)[-600:]
+    except subprocess.TimeoutExpired:
+        reproduced = True
+        tail = ''
+    wall = time.time() - t0
+    if not reproduced:
+        try:
+            os.unlink(case_file)
+        except OSError:
+            pass
+        print(f"INFRA: {prop}: a guarded execution of the {hung['what']} exceeded {hung['limit']:.0f}s but the case alone returns "
+              f"in time ({tail[-200:]!r}); treated as an infrastructure time-out", file=sys.stderr)
+        return 2
+    try:
+        os.unlink(case_file)
+    except OSError:
+        pass
+    sig = 'hang(no-return-within-%ds)' % int(hung['limit'])
+    path = write_replay(prop, seed, sig, {
+        'property': prop, 'signature': sig, 'case': hung['case'],
+        'what': f"the {hung['what']} does not return within {hung['limit']:.0f}s on this case (twice: inside the run and alone in a "
+                f"fresh process); cases of this kind take milliseconds",
+        'replay_cmd': f'./check {prop} --replay <this file>   (does not return)', 'repo': REPO})
+    ev = {'property_id': prop, 'tier': tier, 'seed': seed, 'level': 'proof',
+          'coverage': {'obligations': 0, 'discharged': 0, 'checker_cmd': 'not reached: the run was stopped by the supervisor',
+                       'trusted_base': GLOBAL_TRUSTED, 'evaluations': 1, 'distinct_nontrivial': 1,
+                       'rule': 'the case during which the implementation stopped returning', 'samples': [hung['case']],
+                       'traces_validated_against_impl': 0, 'disagreements_checked': 0, 'exhaustive': False,
+                       'explanation': 'supervisor verdict: hang reproduced on a single case'},
+          'assumptions': [], 'wall_s': round(wall, 2), 'violations': 1}
+    d = os.path.join(OUT, 'evidence')
+    os.makedirs(d, exist_ok=True)
+    with open(os.path.join(d, f'{prop}.json'), 'w') as fh:
+        json.dump(ev, fh, indent=1, default=repr)
+    print(f'VIOLATION property={prop} replay={path}')
+    print(f'{prop} tier={tier} seed={seed} stopped by the supervisor: {sig} wall={wall:.1f}s')
+    return 1
 
 
 # ----------------------------------------------------------------------------------------
